@@ -335,7 +335,7 @@ def directed_negative_timespan(T):
         parent = T.nid - 1
 
 
-def gen_loaded(S, r, name, kind, P, n, stats):
+def gen_loaded(S, r, name, kind, P, n, stats, sparse=0):
     """chains inserted with loadBlockForward(fast_load): arbitrary difficulties and timestamps without mining,
     probed after every block (getNextWorkRequired / median time / validateKeystones are free functions)"""
     T = TreeGen(S, r, name, kind, P, stats)
@@ -386,10 +386,15 @@ def gen_loaded(S, r, name, kind, P, n, stats):
         if ans["code"] != "ok":
             continue
         T.add(bid, parent, time, bits, True)
-        if r.below(100) < 85:
+        if r.below(100) < (85 if not sparse else 100):
             parent = bid
         else:
             parent = r.choice(list(T.blocks))
+        if sparse:
+            # long chains under the real parameter sets: probe around the retarget boundaries and a few random places
+            hh = T.blocks[bid]["h"]
+            if not ((hh + 1) % sparse in (0, 1, 2, sparse - 1) or r.below(100) < 2):
+                continue
         S.emit("probe", name, bid, min(time + r.range(0, 3 * unit), (1 << 32) - 1))
         if kind == "vbk":
             k1, k2 = T.keystones(bid, r.choice([0, 0, 0, 1, 2, 3, 4, 5, 6]))
@@ -424,7 +429,6 @@ def vbk_param_sets(r):
 
 def vbk_loaded_sets(r):
     sets = [
-        {"mindiff": 90000000000, "noret": 0, "N": 100, "T": 30, "future": 300, "ks": 20},   # mainnet values
         {"mindiff": 100000000, "noret": 0, "N": 10, "T": 30, "future": 300, "ks": 20},
         {"mindiff": 1, "noret": 0, "N": 5, "T": 10, "future": 300, "ks": 4},
         {"mindiff": 1000, "noret": 0, "N": 3, "T": 7, "future": 300, "ks": 3},
@@ -438,8 +442,9 @@ def vbk_loaded_sets(r):
 
 def generate(ctx, S, sizes, stats):
     r = ctx.rng
+    real = {}
     for n in ("btc_main", "btc_test", "btc_regtest", "vbk_main", "vbk_test", "vbk_regtest"):
-        S.emit("params", n)
+        real[n] = S.emit("params", n).split()
     S.emit("consts")
     S.set_now(200000)
     trees = []
@@ -474,6 +479,18 @@ def generate(ctx, S, sizes, stats):
              {"limit": (1 << 224) - 1, "timespan": 1 << 30, "spacing": 1 << 28, "allow": 0, "noret": 0, "future": 7200}]
     for i, P in enumerate(lsets):
         gen_loaded(S, r.fork(), "LB%d" % i, "btc", P, sizes["btc_loaded"], stats)
+    # the REAL parameter sets (values regenerated from the headers, as reported by the model): long loaded chains
+    for n in sizes["real_btc"]:
+        v = real[n]
+        P = {"limit": int(v[0], 16), "timespan": int(v[1], 16), "spacing": int(v[2], 16), "allow": int(v[3]),
+             "noret": int(v[4]), "future": int(v[5], 16)}
+        I = P["timespan"] // P["spacing"]
+        gen_loaded(S, r.fork(), "R" + n, "btc", P, sizes["real_btc_len"], stats, sparse=I)
+    for n in sizes["real_vbk"]:
+        v = real[n]
+        P = {"mindiff": int(v[0], 16), "noret": int(v[1]), "N": int(v[2], 16), "T": int(v[3], 16),
+             "future": int(v[4], 16), "ks": int(v[5], 16)}
+        gen_loaded(S, r.fork(), "R" + n, "vbk", P, sizes["vbk_loaded_main"], stats)
 
 
 # ---------------------------------------------------------------------------------------------
@@ -695,11 +712,13 @@ def run(ctx):
 
     # 2. generated scenarios
     if ctx.tier == "quick":
-        sizes = {"btc_ops": 120, "vbk_ops": 56, "vbk_loaded": 40, "vbk_loaded_main": 130, "btc_loaded": 60}
+        sizes = {"btc_ops": 120, "vbk_ops": 56, "vbk_loaded": 40, "vbk_loaded_main": 130, "btc_loaded": 60,
+                 "real_btc": ["btc_main"], "real_btc_len": 2030, "real_vbk": ["vbk_main"]}
         rounds = 1
     else:
-        sizes = {"btc_ops": 400, "vbk_ops": 160, "vbk_loaded": 120, "vbk_loaded_main": 260, "btc_loaded": 300}
-        rounds = 6
+        sizes = {"btc_ops": 400, "vbk_ops": 160, "vbk_loaded": 120, "vbk_loaded_main": 260, "btc_loaded": 300,
+                 "real_btc": ["btc_main", "btc_test"], "real_btc_len": 4100, "real_vbk": ["vbk_main", "vbk_test"]}
+        rounds = 4
     stats = {"codes": {}, "tip_switches": 0, "invalidations": 0, "b_time_below_mtp": 0, "b_time_decreasing": 0,
              "b_wrong_bits": 0, "b_wrong_ks_mode": 0, "infeasible_prescribed": 0, "b_target_out_of_range": 0}
     hist = {}
@@ -741,7 +760,8 @@ def run(ctx):
     ctx.cov["op_histogram"] = hist
     ctx.cov["verdict_histogram"] = stats["codes"]
     ctx.cov["boundary_hits"] = {k: v for k, v in stats.items() if k != "codes"}
-    ctx.cov["parameter_sets"] = {"btc_mined": 6, "vbk_mined": 4, "vbk_loaded": 6, "btc_loaded": 3, "one_process": True}
+    ctx.cov["parameter_sets"] = {"btc_mined": 6, "vbk_mined": 4, "vbk_loaded": 5, "btc_loaded": 3,
+                                 "real_sets_from_generated_constants": sizes["real_btc"] + sizes["real_vbk"], "one_process": True}
     ctx.cov["trusted_base"] = [
         "VBK double step: OCaml native floats in the driver, every used (K,t) re-evaluated with Coq PrimFloat (VbkFloat.vbk_coef) on each run",
         "sampled probes re-evaluated inside Coq by vm_compute on the Gallina definitions (extraction cross-check)",
